@@ -381,6 +381,8 @@ def eval_cases(prop, name, imports, run_fn, case_type, cases, shard=200, timeout
     """cases: list of Gallina terms of type (case_type * obs). Evaluates
     `mismatches run_fn cases` shard by shard under vm_compute.
     Returns (mismatch_indices, errors[list of str], n_shards)."""
+    if os.environ.get("VERIF_DEV_ORACLE_ONLY"):      # development only (mutation sweeps): skip the model evaluation
+        return [], [], 0
     d = os.path.join(BUILD, prop, name)
     shutil.rmtree(d, ignore_errors=True)
     os.makedirs(d)
